@@ -238,6 +238,11 @@ INITIAL = {
     "delete": {F1: _file([_cmd("ls\n"), _cmd("secret 1\n"), _cmd("pwd\n")]), F2: _file([_cmd("secret 2\n"), _cmd("cd\n")])},
     "erasedups": {F1: _file([_cmd("ls\n", ts=1.0), _cmd("pwd\n", ts=2.0)]), F2: _file([_cmd("ls\n", ts=5.0), _cmd("ls\n", ts=3.0)])},
     "unlock": {F1: _file([_cmd("ls\n")], locked=True, ts0=1000.0), F2: _file([_cmd("pwd\n")])},
+    "flush_corrupt": {F1: _file([_cmd("ls\n"), _cmd("echo hi\n")], locked=True)[:120]},  # an already damaged file: must not get worse than 'old or new'
+    "flush_missing": {},  # the session file does not exist yet
+    "delete_three": {F1: _file([_cmd("secret 0\n")]), F2: _file([_cmd("keep\n"), _cmd("secret 2\n")]),
+                     "/h/xonsh-ccc.json": _file([_cmd("secret 3\n"), _cmd("pwd\n")])},
+    "unlock_two": {F1: _file([_cmd("ls\n")], locked=True, ts0=1000.0), F2: _file([_cmd("pwd\n")], locked=True, ts0=1100.0)},
 }
 OPS = list(INITIAL)
 
@@ -267,18 +272,18 @@ def _mk_hist():
 def _run_op(op, fs):
     _install(fs)
     try:
-        if op in ("flush", "flush_exit"):
+        if op in ("flush", "flush_exit", "flush_corrupt", "flush_missing"):
             fl = object.__new__(hj.JsonHistoryFlusher)
             fl.filename = F1
             fl.buffer = [_cmd("make\n", ts=20.0), _cmd("make test\n", rtn=2, ts=21.0)]
             fl.at_exit = op == "flush_exit"
             fl.skip = None
             fl.dump()
-        elif op == "delete":
+        elif op in ("delete", "delete_three"):
             _mk_hist().delete("secret")
         elif op == "erasedups":
             _mk_hist().erasedups()
-        elif op == "unlock":
+        elif op in ("unlock", "unlock_two"):
             saved = hj.JsonHistoryGC.start
             hj.JsonHistoryGC.start = lambda self: None
             try:
@@ -317,7 +322,7 @@ def _loadable(content):
         return False
 
 
-MAXSTEP = 14
+MAXSTEP = 16
 
 
 def _pick(pool, i):
@@ -338,6 +343,8 @@ def ob_crash(op_i: int, crash_at: int, partial: int) -> Optional[str]:
         raise Skip()  # the operation has fewer steps
     for name in sorted(set(old) | set(state)):
         if name not in state:
+            if name not in old:
+                continue
             return viol("file-lost", lambda: f"{op}: killed at step {k} ({trace[-1]}): {name} no longer exists")
         disk, buf = state[name]
         good = [c for c in (old.get(name), new.get(name)) if c is not None]
@@ -354,7 +361,7 @@ def ob_crash(op_i: int, crash_at: int, partial: int) -> Optional[str]:
             if partial == a:
                 ok = True
         if not ok:
-            kind = "in-place-unlock" if op == "unlock" else "damaged"
+            kind = "in-place-unlock" if op.startswith("unlock") else "damaged"
             return viol(kind, lambda: f"{op}: killed at step {k} ({trace[-1]}) while {name} was being written in place: {partial} of {len(buf)} buffered characters on disk leave a truncated file")
     return None
 
@@ -371,6 +378,8 @@ def ob_fault(op_i: int, fail_at: int, short: bool) -> Optional[str]:
         raise Skip()
     for name in sorted(set(old) | set(state)):
         if name not in state:
+            if name not in old:
+                continue
             return viol("file-lost", lambda: f"{op}: call {k} ({trace[k] if k < len(trace) else '?'}) failed: {name} no longer exists")
         disk, buf = state[name]
         good = [c for c in (old.get(name), new.get(name)) if c is not None]
@@ -386,14 +395,14 @@ def _region_unlock(args, v):
 
 OBLIGATIONS = [
     Obligation("crash", ob_crash,
-               bounds="operations: background flush, flush at exit, history delete (2 files), erasedups (2 files), stale-lock unlock during GC "
-                      "enumeration; kill before any of the operation's <=14 file-system steps; buffered data on disk: any prefix length (unbounded int)",
-               pre=["0 <= crash_at < 14", "partial >= 0"], parts={"quick": [dict(op_i=i) for i in range(len(OPS))]},
+               bounds="operations: background flush, flush at exit, flush onto a damaged / a missing session file, history delete (2 and 3 files), erasedups "
+                      "(2 files), stale-lock unlock during GC enumeration (1 and 2 stale files); kill before any of the operation's <=16 file-system steps; buffered data on disk: any prefix length (unbounded int)",
+               pre=["0 <= crash_at < 16", "partial >= 0"], parts={"quick": [dict(op_i=i) for i in range(len(OPS))]},
                timeout={"quick": 120, "thorough": 300}, regions={"C13-unlock-rewrite-in-place": _region_unlock},
                symbolic="kill step, number of buffered characters that reached the disk"),
     Obligation("fault", ob_fault,
                bounds="same operations; any single file-system call fails with OSError, or (os.write only) writes short without raising",
-               pre=["0 <= fail_at < 14"], parts={"quick": [dict(op_i=i) for i in range(len(OPS))]},
+               pre=["0 <= fail_at < 16"], parts={"quick": [dict(op_i=i) for i in range(len(OPS))]},
                timeout={"quick": 120, "thorough": 300}, regions={"C13-unlock-rewrite-in-place": _region_unlock},
                symbolic="failing call index, short-write flag"),
 ]
